@@ -54,6 +54,26 @@ def _np_abs(x):
     return _np.abs(x)
 
 
+def _np_rint(x, *a, **k):
+    # round-to-nearest (ties are over-approximated by the ROUND0 axioms: any integer within 1/2; every counterexample is
+    # replayed on the float code before it is reported)
+    if isinstance(x, Sym):
+        return x.__round__() * 1.0
+    return _np.rint(x, *a, **k)
+
+
+def _np_round(x, decimals=0, *a, **k):
+    if isinstance(x, Sym):
+        return x.__round__(decimals) * 1.0 if decimals else x.__round__() * 1.0
+    return _np.round(x, decimals, *a, **k)
+
+
+def _np_trunc(x, *a, **k):
+    if isinstance(x, Sym):
+        return x.__trunc__() * 1.0
+    return _np.trunc(x, *a, **k)
+
+
 def _np_isclose(a, b, rtol=1e-05, atol=1e-08):
     if isinstance(a, Sym) or isinstance(b, Sym):
         d = a - b
@@ -125,6 +145,11 @@ class NPProxy:
     copysign = staticmethod(_np_copysign)
     abs = staticmethod(_np_abs)
     isclose = staticmethod(_np_isclose)
+    rint = staticmethod(_np_rint)
+    round = staticmethod(_np_round)
+    around = staticmethod(_np_round)
+    trunc = staticmethod(_np_trunc)
+    fix = staticmethod(_np_trunc)
     zeros = staticmethod(_np_zeros)
     log = staticmethod(_np_log)
     exp = staticmethod(_np_exp)
